@@ -27,7 +27,7 @@ m = {
     "hooks": {
         "guard": "verif",
         "enable": "go build -tags verif (the tag only adds comment-only contract files contracts_verif.go and http2utils/contracts_verif.go)",
-        "baseline_off_cmd": "cd /repo && go test -vet=off -count=1 -timeout 25m ./...",
+        "baseline_off_cmd": ". /verif/env.sh && cd /repo && go test -vet=off -count=1 -timeout 25m ./...",
         "source_commits": claims.get("_hook_commits", []),
         "add_only": True,
     },
